@@ -66,9 +66,16 @@ def interpNext (e : List (Rat × Rat)) (x : Rat) : Option Rat :=
     | _, _ => none
   | _, _ => none
 
+def mapOpt (f : Rat → Option Rat) : List Rat → Option (List Rat)
+  | [] => some []
+  | x :: r =>
+    match f x, mapOpt f r with
+    | some a, some l => some (a :: l)
+    | _, _ => none
+
 /-- one bound of `Staircase.from_CDFbundle`: the extended ecdf looked up at every grid level -/
 def bound (g : List Rat) (e : List (Rat × Rat)) : Option (List Rat) :=
-  g.mapM (interpNext (extendEcdf e))
+  mapOpt (interpNext (extendEcdf e)) g
 
 /-! ## nearest index -/
 
